@@ -1384,7 +1384,28 @@ func scenario(e *simcore.Env, tp *simcore.Tape, g engine) {
 			present[i] = true
 			nPresent++
 		case cnt > 0:
-			e.Fail("point-in-time", "batch-partially-restored", "batch #%d, table %s: %d of %d rows are in the restored copy", u.batch, tableClass(u.table), cnt, len(u.wids))
+			// are all the missing rows of series that this very batch wrote first into that table? then it is the recorded
+			// write-path finding (the data part is introduced before the batch's series documents reach the segment's
+			// series index: the snapshot caught the part but not yet the documents), seen through a snapshot
+			cls := "batch-partially-restored"
+			earlier := map[string]bool{}
+			for _, o := range units {
+				if o.table == u.table && o.batch < u.batch {
+					for _, w := range o.wids {
+						earlier[known[w].series] = true
+					}
+				}
+			}
+			newOnly := true
+			for _, w := range u.wids {
+				if !got[w] && earlier[known[w].series] {
+					newOnly = false
+				}
+			}
+			if newOnly {
+				cls += ":rows-of-new-series-missing"
+			}
+			e.Fail("point-in-time", cls, "batch #%d, table %s: %d of %d rows are in the restored copy", u.batch, tableClass(u.table), cnt, len(u.wids))
 			return
 		}
 	}
